@@ -50,7 +50,7 @@ def template_desc(rng, fixed_states=None, state_perm=None):
         sts = list(dict.fromkeys(sts))
     else:
         sts = list(fixed_states)
-    T = int(rng.integers(2, 4))
+    T = int(rng.integers(2, 5))
     spec = {"r1": {"kind": "disc", "n": 2}, "r2": {"kind": "disc", "n": 3}, "e": {"kind": "disc", "n": 4},
             "w": {"kind": "lin", "start": 1.0, "stop": 9.0, "n": 5}, "z": {"kind": "log", "start": 0.5, "stop": 8.0, "n": 6}}
     cspec = {"c": {"kind": "disc", "n": 2}, "d": {"kind": "disc", "n": 3}, "x": {"kind": "lin", "start": 0.2, "stop": 3.0, "n": 4}}
@@ -65,19 +65,29 @@ def template_desc(rng, fixed_states=None, state_perm=None):
     if restricted:
         args = restricted + ["c"]
         dims = [spec[a]["n"] for a in restricted] + [2, T]
-        for _ in range(50):
-            tab = rng.random(dims) < 0.6
-            feas = tab.any(axis=len(restricted))  # over c -> (r..., T)
+        two = bool(rng.random() < 0.5)
+        for _ in range(80):
+            tab = rng.random(dims) < (0.75 if two else 0.6)
+            tab2 = (rng.random(dims[:-1]) < 0.8) if two else np.ones(dims[:-1], bool)
+            both = tab & tab2[..., None]
+            feas = both.any(axis=len(restricted))  # over c -> (r..., T)
             always = feas.all(axis=-1)
             if always.any() and not feas.all():
                 break
         else:
             tab = np.ones(dims, bool)
+            tab2 = np.ones(dims[:-1], bool)
+            two = False
             feas = tab.any(axis=len(restricted))
             always = feas.all(axis=-1)
         tables["FT"] = tab.tolist()
         fns.append(["lay_filter", args + ["_period"], f"FT[{', '.join(args)}, _period]"])
         params["lay_filter"] = {}
+        if two:
+            tables["FT2"] = tab2.tolist()
+            a2 = [str(x) for x in rng.permutation(args)]
+            fns.append(["static_filter", a2, f"FT2[{', '.join(args)}]"])
+            params["static_filter"] = {}
         anchors = np.argwhere(always)
         a = anchors[int(rng.integers(0, len(anchors)))]
         b = anchors[int(rng.integers(0, len(anchors)))]
